@@ -30,10 +30,16 @@ type state struct {
 	autoescape ast.AutoescapeType // escaping mode
 	ij         data.Map           // injected data available to all templates.
 	msgs       soymsg.Bundle      // replacement text for {msg} tags
+	evaluating int                // > 0 while an expression of the command at node is being evaluated
 }
 
 // at marks the state to be on node n, for error reporting.
+// (An error in an expression is reported at the command the expression belongs
+// to: a command may span lines, and its position is where it begins.)
 func (s *state) at(node ast.Node) {
+	if s.evaluating > 0 {
+		return
+	}
 	s.node = node
 }
 
@@ -328,7 +334,7 @@ func toFloat(v data.Value) float64 {
 }
 
 func (s *state) evalPrint(node *ast.PrintNode) {
-	s.walk(node.Arg)
+	s.eval(node.Arg)
 	if _, ok := s.val.(data.Undefined); ok {
 		s.errorf("In 'print' tag, expression %q evaluates to undefined.", node.Arg.String())
 	}
@@ -689,7 +695,9 @@ func (s *state) eval2def(n1, n2 ast.Node) (data.Value, data.Value) {
 
 func (s *state) eval(n ast.Node) data.Value {
 	var prev = s.node
+	s.evaluating++
 	s.walk(n)
+	s.evaluating--
 	s.node = prev
 	return s.val
 }
